@@ -53,6 +53,7 @@ import (
 	"iter"
 	"log/slog"
 	"net/http"
+	"slices"
 	"time"
 
 	"github.com/bartventer/httpcache/internal"
@@ -456,13 +457,27 @@ func (r *transport) backgroundRevalidate(
 			return
 		default:
 		}
+		// The response handed to the caller is no longer ours to read or
+		// modify: work on a private copy of the entry, and on the index as it
+		// is now, so that other variants stored meanwhile are kept.
+		own, err := r.cache.Get(stored.ID, req)
+		if err != nil {
+			errc <- err
+			return
+		}
+		refs, _ := r.cache.GetRefs(urlKey)
+		refIndex := slices.IndexFunc(refs, func(ref *internal.ResponseRef) bool {
+			return ref != nil && ref.ResponseID == stored.ID
+		})
 		revalCtx := internal.RevalidationContext{
 			URLKey:    urlKey,
 			Start:     start,
 			End:       end,
 			CCReq:     ccReq,
-			Stored:    stored,
+			Stored:    own,
 			Freshness: freshness,
+			Refs:      refs,
+			RefIndex:  refIndex,
 		}
 		//nolint:bodyclose // The response is not used, so we don't need to close it.
 		_, err = r.vrh.HandleValidationResponse(revalCtx, req, resp, nil)
